@@ -34,15 +34,32 @@ def handle : Handler := fun input impl =>
   | some v => ("-", v)
   | none =>
   match getS kv "mode" with
-  | "locks" => ("static", judgeTable tbl)
+  | "locks" => ("static", judgeStatic tbl Pandora.Gen.Locks.closures Pandora.Gen.Locks.handoverSites)
   | "alias" =>
     let c := cfgOf kv
     let o : AliasObs := { guns := getS okv "guns", ammo := getS okv "ammo", served := getS okv "served",
-                          shared := dashList (getS okv "shared" "-"), mutated := dashList (getS okv "mutated" "-") }
+                          shared := dashList (getS okv "shared" "-"), mutated := dashList (getS okv "mutated" "-"),
+                          latemut := dashList (getS okv "latemut" "-"), closures := dashList (getS okv "closures" "-") }
     -- http ammo are struct values (`ammo=value`), scenario and grpc ammo are pointers
     let ammo := if c.kind ∈ ["uri", "uripost", "raw", "httpjson"] then "value" else "distinct"
-    let mobs := s!"guns=distinct ammo={ammo} served=yes shared={listDash (expectedShared c)} mutated={listDash (expectedMutated c)}"
+    -- what the shots publish (late), what later shots write of it (latemut) and the closure objects in reach are not
+    -- predicted: they are judged (a harmless new cache changes them)
+    let mobs := s!"guns=distinct ammo={ammo} served=yes shared={listDash (expectedShared c)} mutated={listDash (expectedMutated c)} late={getS okv "late" "-"} latemut={getS okv "latemut" "-"} closures={getS okv "closures" "-"}"
     (mobs, (extraConc okv).getD (judgeAlias tbl o))
+  | "isolate" =>
+    match lookup okv "together", lookup okv "solo" with
+    | some tg, some so =>
+      let o : IsolateObs := { together := tg.splitOn ";", solo := so.splitOn ";" }
+      let chains := ((getS kv "chains").splitOn ";").mapM Pandora.Model.C11.parseChain
+      let toks := ((getS kv "toks").splitOn ";").map fun t => if t == "_" then none else some t
+      let mobs := match chains with
+        | some cs => match toks.mapM (isolateEcho cs) with
+          | some es => let e := ";".intercalate es; s!"together={e} solo={e}"
+          | none => "-"
+        | none => "-"
+      let v := judgeIsolate o
+      (if v == "ok" then mobs else "-", if v != "ok" then v else (extraConc okv).getD "ok")
+    | _, _ => ("-", (extraConc okv).getD s!"fail:crash:unparsable observation {impl.take 120}")
   | "handover" =>
     match getN? okv "shots", getN? okv "reports", lookup okv "words" with
     | some sh, some rp, some ws =>
